@@ -55,7 +55,7 @@ package disk
 //@   ensures[C03] bounded: totalSize <= c.lru.maxSize && reservedSize >= 0 && totalSize == reservedSize + sum4k(c.lru.ll.seq, #lruItem.sizeOnDisk)
 
 //@ func (c *diskCache) Contains(ctx context.Context, kind cache.EntryKind, hash string, size int64) (bool, int64)
-//@   serves C03 C05 C07 C10 C12 C18
+//@   serves C02 C03 C05 C07 C10 C12 C18
 //@   requires wfCache(c) && !muHeld
 //@   modifies lruState(c.lru), hitN, hitSize, pxN, pxFound, pxSize
 //@   ensures[C07] unlocked: !muHeld
@@ -85,7 +85,7 @@ package disk
 //@   call Unreserve#* asserts[C03] amount: arg1 == reservedSize
 
 //@ func (c *diskCache) availableOrTryProxy(kind cache.EntryKind, hash string, size int64, offset int64, zstd bool) (io.ReadCloser, int64, bool, error)
-//@   serves C02 C03 C05 C07 C12 C14 C17 C18
+//@   serves C02 C03 C04 C05 C07 C10 C12 C14 C17 C18 C20
 //@   requires wfCache(c) && !muHeld && held >= 0 && len(hash) == 64
 //@   requires[C02] offsetrange: offset == 0 || (0 < offset && size > 0 && offset < size)
 //@   modifies lruState(c.lru), held, resN, hitN, hitSize, ioState()
@@ -104,7 +104,7 @@ package disk
 //@   call GetUncompressedReadCloser#* asserts[C02] args: arg2 == size && arg3 == offset && !zstd
 
 //@ func (c *diskCache) get(ctx context.Context, kind cache.EntryKind, hash string, size int64, offset int64, zstd bool) (rc io.ReadCloser, s int64, rErr error)
-//@   serves C02 C03 C04 C07 C08 C12 C14 C15 C17 C18
+//@   serves C02 C03 C04 C07 C08 C12 C14 C15 C17 C18 C20
 //@   requires wfCache(c) && !muHeld && held >= 0 && ctx != nil
 //@   requires[C02] unknownsize: size <= 0 ==> offset <= 0
 //@   modifies lruState(c.lru), held, resN, hitN, hitSize, adopted, tmpOpen, tmpName, tmpRandom, tfc.idum, ioState()
@@ -142,7 +142,7 @@ package disk
 //@   call Close#0 asserts[C01] verifierclosed: kind == 1 ==> istype(arg0, "*sha256verifier.sha256verifier")
 
 //@ func (c *diskCache) Put(ctx context.Context, kind cache.EntryKind, hash string, size int64, r io.Reader) (rErr error)
-//@   serves C01 C03 C04 C07 C08 C12 C18
+//@   serves C01 C03 C04 C05 C07 C08 C12 C18 C20
 //@   requires wfCache(c) && !muHeld && r != nil && ctx != nil && held >= 0
 //@   modifies lruState(c.lru), held, adopted, tmpOpen, tmpName, tmpRandom, tfc.idum, pxPuts, resN, ioState()
 //@   ensures[C18] exactlimit: (isCacheErr(rErr, 400) && resN == old(resN)) ==> (size < 0 || size > c.maxBlobSize || len(hash) != 64)
@@ -178,7 +178,7 @@ package disk
 //@ pred nodesCovered(d, p, n) = forall m Int :: (lo(d.Files) <= m && m < lo(d.Files) + n && nodeDig(elems(d.Files)[m]) != 0) ==> inSlice(p, nodeDig(elems(d.Files)[m]))
 
 //@ func (c *diskCache) GetValidatedActionResult(ctx context.Context, hash string) (*pb.ActionResult, []byte, error)
-//@   serves C06 C11 C14
+//@   serves C03 C06 C07 C11 C14
 //@   requires wfCache(c) && !muHeld && held >= 0 && ctx != nil && c.accessLogger != nil
 //@   modifies lruState(c.lru), held, resN, hitN, hitSize, adopted, tmpOpen, tmpName, tmpRandom, tfc.idum, visited, ioState(), sendN, sentRefs
 //@   ensures[C07] unlocked: !muHeld
